@@ -75,7 +75,7 @@ Section RelexProofs.
     String.length text - String.length pre < fuel ->
     bc_b m names L text (String.length pre) prev toks = true ->
     exists rs, lex_raw m text fuel (lx_mres L) (String.length pre) = (rs, AtEOF) /\
-               conv_toks names text (emit m text (lx_terms L) (lx_ign L) rs) = Some toks.
+               conv_toks names text (emit lower m text (lx_terms L) (lx_ign L) rs) = Some toks.
   Proof.
     induction toks as [|[n x] rest IH]; intros pre prev fuel Et Hf Hb.
     - simpl in Et. rewrite sapp_nil_r in Et. exists []. split; auto. apply lex_raw_eof. rewrite Et. lia.
@@ -102,14 +102,14 @@ Section RelexProofs.
       (* the token itself, from position q with fuel f *)
       assert (Htok : forall f, String.length text - q < S f ->
                 exists rs, lex_raw m text (S f) (lx_mres L) q = (rs, AtEOF) /\
-                           conv_toks names text (emit m text (lx_terms L) (lx_ign L) rs) = Some ((n, x) :: rest)).
+                           conv_toks names text (emit lower m text (lx_terms L) (lx_ign L) rs) = Some ((n, x) :: rest)).
       { intros f Hf'. rewrite Hq' in Hrest.
         destruct (IH (append (append pre sp) x) x f Et3) as (rs & Hr & Hc); [rewrite <- Hq'; lia|exact Hrest|].
         rewrite <- Hq' in Hr.
         exists (mkRaw t q (String.length x) :: rs). split.
         - rewrite (lex_raw_step f q t _ Es); [|lia]. rewrite Hr. reflexivity.
         - unfold emit. cbn [filter]. unfold ignored at 1. cbn [rterm]. rewrite Hign. cbn [negb map conv_toks tok_of rterm rstart rlen ktype kstart klen].
-          rewrite Hsub. destruct (name_index names (report m (lx_terms L) t x)) as [n'|]; [|discriminate].
+          rewrite Hsub. destruct (name_index names (report lower m (lx_terms L) t x)) as [n'|]; [|discriminate].
           simpl in Hname. apply Nat.eqb_eq in Hname. subst n'. unfold emit in Hc. rewrite Hc. reflexivity. }
       unfold q in *. clear q. destruct (need_space prev x) eqn:Ens.
       + (* a blank was inserted: it is scanned as one ignored terminal *)
